@@ -31,7 +31,9 @@ DArr(e, n)      == [d |-> "seq", e |-> e, unordered |-> FALSE, n |-> n, set |-> 
 DBag(e)         == [d |-> "seq", e |-> e, unordered |-> TRUE, n |-> -1, set |-> TRUE]   \* HashSet, BinaryHeap: any element order
 DBytesN(n)      == [d |-> "bytes", n |-> n]           \* ByteArray<N>, Ipv4Addr, Ipv6Addr: exactly n bytes
 DNZ(ty)         == [d |-> "int", ty |-> ty, nz |-> TRUE]
-DTuple(es)      == [d |-> "tuple", es |-> es, dur |-> FALSE, st |-> FALSE]
+DTuple(es)      == [d |-> "tuple", es |-> es, dur |-> FALSE, st |-> FALSE, lax |-> FALSE]
+\* the range types: written like a tuple, read like a derived struct (fields by position, surplus elements ignored)
+DFields(es)     == [d |-> "tuple", es |-> es, dur |-> FALSE, st |-> FALSE, lax |-> TRUE]
 DMap(k, v)      == [d |-> "map", kd |-> k, vd |-> v, unordered |-> FALSE]
 DHMap(k, v)     == [d |-> "map", kd |-> k, vd |-> v, unordered |-> TRUE]
 DUnit           == [d |-> "unit"]                    \* (), PhantomData, the content of Bound::Unbounded: an empty array
@@ -48,8 +50,8 @@ DIpAddr == DVar(<<DIpv4, DIpv6>>)
 DSockV4 == DTuple(<<DIpv4, U16>>)
 DSockV6 == DTuple(<<DIpv6, U16>>)
 DSock   == DVar(<<DSockV4, DSockV6>>)
-DDuration == [d |-> "tuple", es |-> <<U64, U32>>, dur |-> TRUE, st |-> FALSE]     \* [secs, nanos] with nanos < 10^9
-DSysTime  == [d |-> "tuple", es |-> <<U64, U32>>, dur |-> TRUE, st |-> TRUE]      \* duration since the epoch, representable as a SystemTime
+DDuration == [d |-> "tuple", es |-> <<U64, U32>>, dur |-> TRUE, st |-> FALSE, lax |-> TRUE]     \* [secs, nanos] with nanos < 10^9
+DSysTime  == [d |-> "tuple", es |-> <<U64, U32>>, dur |-> TRUE, st |-> TRUE, lax |-> TRUE]      \* duration since the epoch, representable as a SystemTime
 
 \* the harness' names for its Rust instantiations -> what the documentation says they are on the wire
 TypeTable == [
@@ -63,7 +65,7 @@ TypeTable == [
    optu8 |-> DOpt(U8), optstring |-> DOpt(DText), optvecu16 |-> DOpt(DSeq(U16)),
    resu8string |-> DResult(U8, DText), resunitu64 |-> DResult(DUnit, U64),
    boundi16 |-> DBound(I16),
-   rangeu8 |-> DTuple(<<U8, U8>>), rangefromu16 |-> DTuple(<<U16>>), rangetoi8 |-> DTuple(<<I8>>), rangetoinclu32 |-> DTuple(<<U32>>), rangeincli64 |-> DTuple(<<I64, I64>>),
+   rangeu8 |-> DFields(<<U8, U8>>), rangefromu16 |-> DFields(<<U16>>), rangetoi8 |-> DFields(<<I8>>), rangetoinclu32 |-> DFields(<<U32>>), rangeincli64 |-> DFields(<<I64, I64>>),
    unit |-> DUnit, phantom |-> DUnit,
    tup1 |-> DTuple(<<U8>>), tup2 |-> DTuple(<<U8, DText>>), tup3 |-> DTuple(<<I16, DBool, DOpt(U8)>>), tup4 |-> DTuple(<<U64, DText, DF32, DUnit>>),
    tup16 |-> DTuple(<<U8, U8, U8, U8, U8, U8, U8, U8, U8, U8, U8, U8, U8, U8, U8, U8>>),
